@@ -90,6 +90,19 @@ def rule_SW1(ctx, files=None):
                          'the flag %s is passed to %s at the position of its parameter %s, while the parameter called %s '
                          'receives %s: boolean arguments in the wrong order'
                          % (names[a_i], ce.get('q'), pn[a_i], names[a_i], other or 'another expression'))
+            # a by-value flag of the caller that carries the very name of the callee's flag is what is passed there
+            own = {p_['name'] for p_ in f.params if p_['pk'] in ('v', 'cr') and
+                   p_.get('t', '').replace('const ', '').strip() == 'bool'}
+            for a_i in range(min(len(names), len(pn))):
+                an = f.nodes[f.strip_casts(args[a_i])]
+                if not names[a_i] or names[a_i] == pn[a_i] or pn[a_i] not in own or pn[a_i] in names:
+                    continue
+                if an['k'] != 'DeclRefExpr' or an.get('t', '').replace('const ', '').strip() != 'bool':
+                    continue
+                res.ob(False, {'fn': f.q, 'call': ce.get('q'), 'at': f.loc(i), 'flag': names[a_i], 'passed_as': pn[a_i]})
+                res.fail(f.q, '%s(%s as %s)' % (ce.get('name'), names[a_i], pn[a_i]), f.loc(i),
+                         '%s receives the flag %s for its parameter %s although %s has a flag argument called %s that is '
+                         'passed nowhere in this call' % (ce.get('q'), names[a_i], pn[a_i], f.q, pn[a_i]))
             res.ob(True, None)
     res.analysed['calls_with_named_arguments'] = ncalls
     return res, ncalls
